@@ -407,7 +407,7 @@ impl Prop for C04 {
 		{
 			let mut groups: Vec<Vec<Case>> = vec![];
 			for (k, n) in gen::huge_sizes(tier).into_iter().enumerate() {
-				let x = "A".repeat(n);
+				let x = gen::filler(n);
 				let fam = if k % 2 == 0 { Fam::Iri } else { Fam::Uri };
 				let parsed = |full: bool, text: String, ops: Vec<Op>| Case { fam, init: Init::Parsed { full, text }, ops };
 				let small_norm = parsed(false, "x/./y/../z".into(), vec![Op::Path(vec![POp::Normalize])]);
@@ -426,7 +426,7 @@ impl Prop for C04 {
 					parsed(false, "a/b".into(), vec![Op::Path(vec![POp::Push(x.clone()), POp::Pop, POp::Push("c".into())])]),
 				]);
 				groups.push(vec![
-					parsed(true, "s://u@h:1/p".into(), vec![Op::Auth(vec![AOp::SetHost(x.clone()), AOp::SetUserinfo(Some(x.clone()))]), Op::Auth(vec![AOp::SetPort(Some("1".repeat(n))), AOp::SetHost("g".into()), AOp::SetUserinfo(None), AOp::SetPort(None)])]),
+					parsed(true, "s://u@h:1/p".into(), vec![Op::Auth(vec![AOp::SetHost(x.clone()), AOp::SetUserinfo(Some(x.clone()))]), Op::Auth(vec![AOp::SetPort(Some(gen::digits(n))), AOp::SetHost("g".into()), AOp::SetUserinfo(None), AOp::SetPort(None)])]),
 					parsed(true, "s://u@h:1/p".into(), vec![Op::Auth(vec![AOp::SetHost("gg".into()), AOp::SetUserinfo(Some("vv".into()))])]),
 				]);
 			}
@@ -447,10 +447,10 @@ impl Prop for C04 {
 				continue;
 			}
 			let u = "_".repeat(n);
-			let x = "x".repeat(n);
+			let x = gen::filler(n);
 			let fam = if i % 2 == 0 { Fam::Uri } else { Fam::Iri };
 			for case in [
-				Case { fam, init: Init::PathBuf { text: format!("a:{}", "b".repeat(n)) }, ops: vec![Op::Path(vec![POp::Normalize])] },
+				Case { fam, init: Init::PathBuf { text: format!("a:{}", gen::filler(n)) }, ops: vec![Op::Path(vec![POp::Normalize])] },
 				Case { fam, init: Init::PathBuf { text: format!("x/../{u}:b") }, ops: vec![Op::Path(vec![POp::Normalize, POp::Push("c".into())])] },
 				Case { fam, init: Init::Parsed { full: false, text: format!("s:{u}:b/c") }, ops: vec![Op::Set(SetOp::Scheme(None)), Op::Path(vec![POp::Normalize])] },
 				Case { fam, init: Init::Parsed { full: false, text: "?q".into() }, ops: vec![Op::Set(SetOp::Path(format!("{u}:b"))), Op::Path(vec![POp::Pop, POp::Push(format!("{u}:c"))])] },
